@@ -890,7 +890,14 @@ impl<'tcx> Dumper<'tcx> {
                     if data.is_cleanup {
                         continue;
                     }
-                    for (si, st) in data.statements.iter().enumerate() {
+                    let mut si: usize = 0;
+                    for st in data.statements.iter() {
+                        let emitted = matches!(&st.kind, StatementKind::Assign(_) | StatementKind::SetDiscriminant { .. });
+                        let this_si = si;
+                        if emitted {
+                            si += 1;
+                        }
+                        let si = this_si;
                         if let StatementKind::Assign(b) = &st.kind {
                             if let Rvalue::Aggregate(k, _) = &b.1 {
                                 if let AggregateKind::Closure(cd, cargs) = &**k {
